@@ -29,6 +29,20 @@ struct cv_gframe { void *resume_slot; void *destroy_slot; PT prom; };
 #define NOOPH ((cv_i8 *)NOOP_FRAME)
 #define SP_COUNT(sp) ((sp)->_count_flag >> 1)
 #define SP_H(sp, i) ((sp)->f0.f0._handles[i])
+/* value type / argument type of the instantiation under test: int unless the unit says otherwise (CV_VAL_MV / CV_ARG_MV: the unit
+ * typedefs VAL / ARGT to c13_mv of drivers/c13_types.cpp - a type whose MOVE empties and flags its source while its COPY leaves it alone) */
+#ifndef CV_VAL_MV
+typedef cv_i32 VAL;
+#define VAL_IS(v, pay) (*(v) == (pay))
+#define VAL_TRIVIAL 1
+#else
+#define VAL_IS(v, pay) ((v)->payload == (pay) && (v)->moved_from == 0)        /* holds the value AND has not been moved from */
+#define VAL_TRIVIAL 0
+#endif
+#ifndef CV_ARG_MV
+typedef cv_i32 ARGT;
+#endif
+VAL *gh_val; cv_i32 gh_val_pay;  /* the object of the last co_yield (harness-allocated where a unit needs to look into it) and its payload at entry (logical variable) */
 PT *gh_pt;                      /* the promise under test: lives in a struct cv_gframe allocated by the harness */
 GEN *gh_gen;                    /* the generator object owning it (harness-allocated, GEN_P(gh_gen) == gh_pt) */
 
@@ -73,7 +87,7 @@ int gh_sn_calls; cv_i32 gh_sn_count; cv_i8 *gh_sn_h[3];
 void sp_suspend_now(SP *sp) { gh_sn_calls++; gh_sn_count = SP_COUNT(sp); gh_sn_h[0] = SP_H(sp, 0); gh_sn_h[1] = SP_H(sp, 1); gh_sn_h[2] = SP_H(sp, 2); sp->_count_flag = 0; }
 #endif
 /* promise<int>::operator()(drop | exception_ptr & | int &): resolves the future of the pending call; arbitrary result (0..1 handle) */
-enum { PC_NONE = 0, PC_DROP = 1, PC_EXC = 2, PC_VAL = 3 };
+enum { PC_NONE = 0, PC_DROP = 1, PC_EXC = 2, PC_VAL = 3, PC_RVAL = 4 };
 int gh_pc_calls; int gh_pc_kind; void *gh_pc_this; void *gh_pc_arg; cv_i32 gh_pc_count; cv_i8 *gh_pc_h;
 cv_i8 gh_pc_done_then;          /* the end marker of the record the promise is parked in (_awaiting), at the instant of the resolution */
 #define PC_STUB(kind, arg) gh_pc_calls++; gh_pc_kind = (kind); gh_pc_this = p; gh_pc_arg = (void *)(arg); OWNER_OF(p) = 0; \
@@ -85,8 +99,24 @@ void pr_call_drop(SPB *ret, PROM *p, cv_i32 *tag) { PC_STUB(PC_DROP, 0) }
 #ifdef CV_HAS_pr_call_exc
 void pr_call_exc(SPB *ret, PROM *p, EXCP *e) { PC_STUB(PC_EXC, e) }
 #endif
+/* what the abstract promise does with the value it is called with (future.h: `new(&_value) value_type(std::forward<Args>(args)...)`):
+ * the value of the consumer's future is CONSTRUCTED from the argument - by the real copy constructor from an lvalue, by the real move
+ * constructor from an rvalue (translated from drivers/c13_types.cpp); gh_fut_val is that value. */
+#ifdef CV_VAL_MV
+VAL gh_fut_val;
+#define FUT_COPY(v) mv_copy(&gh_fut_val, (v));
+#define FUT_MOVE(v) mv_move(&gh_fut_val, (v));
+#define FUT_VAL_GHOST gh_fut_val,
+#else
+#define FUT_COPY(v)
+#define FUT_MOVE(v)
+#define FUT_VAL_GHOST
+#endif
 #ifdef CV_HAS_pr_call_val
-void pr_call_val(SPB *ret, PROM *p, cv_i32 *v) { PC_STUB(PC_VAL, v) }
+void pr_call_val(SPB *ret, PROM *p, VAL *v) { PC_STUB(PC_VAL, v) FUT_COPY(v) }
+#endif
+#ifdef CV_HAS_pr_call_rval
+void pr_call_rval(SPB *ret, PROM *p, VAL *v) { PC_STUB(PC_RVAL, v) FUT_MOVE(v) }
 #endif
 /* neighbouring members used as abstract callees in forwarder units */
 int gh_ubf_calls; void *gh_ubf_this; cv_i32 gh_ubf_count; cv_i8 *gh_ubf_h;
@@ -111,13 +141,13 @@ int gh_nf_calls; void *gh_nf_ret; void *gh_nf_this; void *gh_nf_arg_then;
 void pt_next_future_stub(FUT *ret, PT *p) { gh_nf_calls++; gh_nf_ret = ret; gh_nf_this = p; gh_nf_arg_then = (void *)p->_arg; }
 #endif
 int gh_nb_calls; void *gh_nb_owner; cv_i8 gh_nb_state_then; cv_i1 gh_nb_result; int gh_nb_throws; int gh_nb_after_value;
-int gh_gv_calls; void *gh_gv_this; cv_i32 *gh_gv_result; int gh_gv_throws;
+int gh_gv_calls; void *gh_gv_this; VAL *gh_gv_result; int gh_gv_throws;
 #ifdef CV_HAS_na_bool_stub
 cv_i1 na_bool_stub(NAWT *n) { gh_nb_calls++; gh_nb_owner = NAWT_OWNER(n); gh_nb_state_then = NAWT_STATE(n); gh_nb_after_value = gh_gv_calls;
   if (gh_nb_throws) { cv_exc_pending = 1; cv_exc_obj = 0; cv_exc_tinfo = (void *)TI_NO_MORE_VALUES; return 0; } return gh_nb_result; }
 #endif
 #ifdef CV_HAS_gen_value_stub
-cv_i32 *gen_value_stub(GEN *g) { gh_gv_calls++; gh_gv_this = g; if (gh_gv_throws) { cv_exc_pending = 1; cv_exc_obj = 0; cv_exc_tinfo = 0; return 0; } return gh_gv_result; }
+VAL *gen_value_stub(GEN *g) { gh_gv_calls++; gh_gv_this = g; if (gh_gv_throws) { cv_exc_pending = 1; cv_exc_obj = 0; cv_exc_tinfo = 0; return 0; } return gh_gv_result; }
 #endif
 int gh_destroy_calls; void *gh_destroy_frame;
 #ifdef CV_HAS_chpt_destroy
@@ -134,7 +164,7 @@ void pr_dtor_stub(PROM *p) { gh_pd_calls++; gh_pd_owner_then = (void *)OWNER_OF(
 #endif
 #define STUB_GHOSTS gh_res_calls, gh_res_frame, gh_res_caller, gh_res_int_fn, gh_res_int_ctx, gh_res_block, gh_res_awaiting, gh_res_handed_back, gh_wait_calls, gh_wait_after_resume, gh_wait_order, gh_wait_old, gh_wait_flag, \
   gh_notify_calls, gh_notify_value, gh_awr_calls, gh_awr_this, gh_awr_caller_then, gh_awr_arg_then, gh_sn_calls, gh_sn_count, gh_sn_h, gh_pc_calls, gh_pc_kind, gh_pc_this, gh_pc_arg, gh_pc_done_then, \
-  gh_ubf_calls, gh_ubf_this, gh_ns_calls, gh_ns_this, gh_na_calls, gh_na_this, gh_na_caller, gh_na_fn_then, gh_na_h_then, gh_chv_calls, gh_chv_frame, gh_chv_after_na, gh_nf_calls, gh_nf_ret, gh_nf_this, gh_nf_arg_then, \
+  gh_ubf_calls, gh_ubf_this, FUT_VAL_GHOST gh_ns_calls, gh_ns_this, gh_na_calls, gh_na_this, gh_na_caller, gh_na_fn_then, gh_na_h_then, gh_chv_calls, gh_chv_frame, gh_chv_after_na, gh_nf_calls, gh_nf_ret, gh_nf_this, gh_nf_arg_then, \
   gh_nb_calls, gh_nb_owner, gh_nb_state_then, gh_nb_after_value, gh_gv_calls, gh_gv_this, gh_destroy_calls, gh_destroy_frame, gh_lam_calls, gh_lam_this, gh_lam_owner_then, gh_pd_calls, gh_pd_owner_then, \
   gh_ap_ops, gh_ep_addref, gh_ep_release, cv_exc_pending, cv_exc_obj, cv_exc_tinfo
 #define STUBS_FRESH (gh_res_calls == 0 && gh_wait_calls == 0 && gh_notify_calls == 0 && gh_awr_calls == 0 && gh_sn_calls == 0 && gh_pc_calls == 0 && gh_ubf_calls == 0 && gh_ns_calls == 0 && gh_na_calls == 0 && \
@@ -145,10 +175,11 @@ void pr_dtor_stub(PROM *p) { gh_pd_calls++; gh_pd_owner_then = (void *)OWNER_OF(
 /* ------------------------------------------------------------------------------------------------------- body side: co_yield / end */
 /* yield_value(T &) / yield_value(T &&): remembers the yielded OBJECT (R3), touches nothing else, produces yield_suspend{p = NULL} */
 #define YIELD_VALUE_CONTRACT(f) \
-PT *f(PT *this_, cv_i32 *x) \
-__CPROVER_requires(G_PRE && __CPROVER_is_fresh(this_, sizeof(*this_))) \
+PT *f(PT *this_, VAL *x) \
+__CPROVER_requires(G_PRE && __CPROVER_is_fresh(this_, sizeof(*this_)) && __CPROVER_is_fresh(x, sizeof(*x)) && VAL_IS(x, gh_val_pay)) \
 __CPROVER_assigns(this_->_ret) \
 __CPROVER_ensures(cv_exc_pending == 0 && this_->_ret == x && __CPROVER_return_value == 0 && NO_ALLOC) \
+__CPROVER_ensures(VAL_IS(x, gh_val_pay))                     /* the body's object itself is remembered - not copied, not moved, not touched */ \
 ;
 #ifdef CV_HAS_pt_yield_value_ref
 YIELD_VALUE_CONTRACT(pt_yield_value_ref)
@@ -187,7 +218,7 @@ __CPROVER_ensures(NO_ALLOC)
 /* yield_suspend::await_resume() / yield_null::await_resume(): the result of co_yield is the argument installed by the resuming call (R5) */
 #ifdef CV_HAS_ys_await_resume
 #ifdef GEN_ARG
-cv_i32 *ys_await_resume(YS *this_)
+ARGT *ys_await_resume(YS *this_)
 __CPROVER_requires(G_PRE && YS_P(this_) == gh_pt)
 __CPROVER_assigns()
 __CPROVER_ensures(cv_exc_pending == 0 && __CPROVER_return_value == gh_pt->_arg && NO_ALLOC)
@@ -201,7 +232,7 @@ __CPROVER_ensures(cv_exc_pending == 0 && NO_ALLOC)
 #endif
 #endif
 #ifdef CV_HAS_yn_await_resume
-cv_i32 *yn_await_resume(YN *this_)
+ARGT *yn_await_resume(YN *this_)
 __CPROVER_requires(G_PRE && *(PT **)this_ == gh_pt)
 __CPROVER_assigns()
 __CPROVER_ensures(cv_exc_pending == 0 && __CPROVER_return_value == gh_pt->_arg && NO_ALLOC)
@@ -240,7 +271,7 @@ __CPROVER_ensures(cv_exc_pending == 0 && (void *)EXC_OBJ(this_->_exp) == gh_exc_
 /* ------------------------------------------------------------------------------------------------------- consumer side: asking */
 /* set_arg(arg): installs the argument of the call about to resume the body (R5) */
 #ifdef CV_HAS_pt_set_arg
-void pt_set_arg(PT *this_, cv_i32 *arg)
+void pt_set_arg(PT *this_, ARGT *arg)
 __CPROVER_requires(G_PRE && __CPROVER_is_fresh(this_, sizeof(*this_)))
 __CPROVER_assigns(this_->_arg)
 __CPROVER_ensures(cv_exc_pending == 0 && this_->_arg == arg && NO_ALLOC)
@@ -317,15 +348,29 @@ __CPROVER_ensures(cv_exc_pending == 0 && BLOCK_OF(this_) == 1 && gh_notify_calls
  * must say "finished" from that moment on - and already at the instant the promise is resolved, because the consumer may look at once
  * (from another thread).  An end or a value leaves the end marker alone.
  * Hand-over invariant (precondition): the record describes an end, an exception or a value. */
+/* Value clause (from the property: "exactly the sequence of values the generator body yields - same values ... whichever access style it
+ * uses or mixes"; units *_mv, value type c13_mv): the value the call future is given IS the yielded value (constructed from the body's
+ * object, which must hold its payload and must not have been moved from) and the body's object is still the yielded value afterwards -
+ * the consumer may read the same item again through value() / an iterator (mixing styles), and the body goes on using its own lvalue:
+ * handing the object over by move is a violation (seeded change C13-2). */
 #ifdef CV_HAS_pt_unblock_future
 void pt_unblock_future(SP *ret, PT *this_)
+#ifdef CV_VAL_MV
+__CPROVER_requires(G_PRE && STUBS_FRESH && __CPROVER_is_fresh(ret, sizeof(*ret)) && this_ == gh_pt && this_->_done <= 1 && gh_pc_count <= 1 && gh_pc_h != 0)
+__CPROVER_requires((this_->_ret == 0 || this_->_ret == gh_val) && VAL_IS(gh_val, gh_val_pay))
+#else
 __CPROVER_requires(G_PRE && STUBS_FRESH && __CPROVER_is_fresh(ret, sizeof(*ret)) && __CPROVER_is_fresh(this_, sizeof(*this_)) && this_->_done <= 1 && gh_pc_count <= 1 && gh_pc_h != 0)
+#endif
 __CPROVER_requires(this_->_done == 1 || EXC_OBJ(this_->_exp) != 0 || this_->_ret != 0)
 __CPROVER_assigns(__CPROVER_object_whole(ret), this_->_awaiting, this_->_done, STUB_GHOSTS)
+#ifdef CV_VAL_MV
+__CPROVER_ensures((__CPROVER_old(this_->_done) == 0 && EXC_OBJ(this_->_exp) == 0) ==> VAL_IS(&gh_fut_val, gh_val_pay))      /* the call future holds the yielded value */
+__CPROVER_ensures(this_->_ret == __CPROVER_old(this_->_ret) && VAL_IS(gh_val, gh_val_pay))                                   /* and the generator's own item is still that value, un-moved (value() / a second reader / the body see it intact) */
+#endif
 __CPROVER_ensures(cv_exc_pending == 0 && gh_pc_calls == 1 && gh_pc_this == (void *)&this_->_awaiting)
 __CPROVER_ensures(__CPROVER_old(this_->_done) == 1 ==> gh_pc_kind == PC_DROP)
 __CPROVER_ensures((__CPROVER_old(this_->_done) == 0 && EXC_OBJ(this_->_exp) != 0) ==> (gh_pc_kind == PC_EXC && gh_pc_arg == (void *)&this_->_exp))     /* the exception wins over a stale value */
-__CPROVER_ensures((__CPROVER_old(this_->_done) == 0 && EXC_OBJ(this_->_exp) == 0) ==> (gh_pc_kind == PC_VAL && gh_pc_arg == (void *)this_->_ret))
+__CPROVER_ensures((__CPROVER_old(this_->_done) == 0 && EXC_OBJ(this_->_exp) == 0) ==> ((gh_pc_kind == PC_VAL || (VAL_TRIVIAL && gh_pc_kind == PC_RVAL)) && gh_pc_arg == (void *)this_->_ret))   /* handed over as an lvalue (copied); for a trivially copyable value (int) a move IS a copy */
 __CPROVER_ensures((__CPROVER_old(this_->_done) == 0 && EXC_OBJ(this_->_exp) != 0) ==> (gh_pc_done_then == 1 && this_->_done == 1))   /* C13-FINDING-after-exception: the exception handed to the call future is the last item - the generator is finished and says so, before the consumer can look */
 __CPROVER_ensures((__CPROVER_old(this_->_done) == 1 || EXC_OBJ(this_->_exp) == 0) ==> (this_->_done == __CPROVER_old(this_->_done) && gh_pc_done_then == __CPROVER_old(this_->_done)))   /* an end or a value does not touch the end marker */
 __CPROVER_ensures(SP_COUNT(ret) == gh_pc_count && (ret->_count_flag & 1) == 0 && (gh_pc_count == 1 ==> SP_H(ret, 0) == gh_pc_h) && gh_sn_calls == 0)
@@ -356,10 +401,10 @@ __CPROVER_ensures(__CPROVER_return_value == this_->_done && NO_ALLOC)
 ;
 #endif
 #ifdef CV_HAS_pt_value
-cv_i32 *pt_value(PT *this_)
+VAL *pt_value(PT *this_)
 __CPROVER_requires(G_PRE && __CPROVER_is_fresh(this_, sizeof(*this_)))
 __CPROVER_assigns()
-__CPROVER_ensures(__CPROVER_return_value == this_->_ret && NO_ALLOC)
+__CPROVER_ensures(__CPROVER_return_value == this_->_ret && this_->_ret == __CPROVER_old(this_->_ret) && NO_ALLOC)       /* a look, not a take */
 ;
 #endif
 #ifdef CV_HAS_pt_exception
@@ -430,7 +475,7 @@ __CPROVER_ensures(NO_ALLOC)
 /* next(): only builds the awaitable (state unknown, no step yet); with an argument: installs it first (R5) */
 #ifdef CV_HAS_gen_next
 #ifdef GEN_ARG
-void gen_next(NAWT *ret, GEN *this_, cv_i32 *arg)
+void gen_next(NAWT *ret, GEN *this_, ARGT *arg)
 #else
 void gen_next(NAWT *ret, GEN *this_)
 #endif
@@ -450,12 +495,18 @@ __CPROVER_ensures(cv_exc_pending == 0 && NAWT_OWNER(ret) == this_ && NAWT_STATE(
  * and every later next() then give the regular end indication).  Reading a value or finding none leaves the end marker alone.
  * (The clause belongs to C13; the C20 re-run of this unit checks the no-allocation clause only.) */
 #ifdef CV_HAS_gen_value
-cv_i32 *gen_value(GEN *this_)
+VAL *gen_value(GEN *this_)
 __CPROVER_requires(G_PRE && this_ == gh_gen && GEN_P(this_) == gh_pt && gh_pt->_done <= 1)
 __CPROVER_requires(EXC_OBJ(gh_pt->_exp) == 0 || __CPROVER_r_ok((cv_i8 *)EXC_OBJ(gh_pt->_exp) - 16, 16))      /* a thrown object carries its type header (lib/rt_core.c) */
+#ifdef CV_VAL_MV
+__CPROVER_requires((gh_pt->_ret == 0 || gh_pt->_ret == gh_val) && VAL_IS(gh_val, gh_val_pay))
+#endif
 __CPROVER_assigns(cv_exc_pending, cv_exc_obj, cv_exc_tinfo, gh_ep_addref, gh_ep_release, gh_pt->_done)
 __CPROVER_ensures(EXC_OBJ(gh_pt->_exp) != 0 ==> (cv_exc_pending == 1 && cv_exc_obj == (void *)EXC_OBJ(gh_pt->_exp)))
 __CPROVER_ensures((EXC_OBJ(gh_pt->_exp) == 0 && gh_pt->_ret != 0) ==> (cv_exc_pending == 0 && __CPROVER_return_value == gh_pt->_ret))
+#ifdef CV_VAL_MV
+__CPROVER_ensures(gh_pt->_ret == __CPROVER_old(gh_pt->_ret) && VAL_IS(gh_val, gh_val_pay))     /* reading does not consume: the item is still there, holds the yielded value and has not been moved from - reading it twice gives the same value */
+#endif
 __CPROVER_ensures((EXC_OBJ(gh_pt->_exp) == 0 && gh_pt->_ret == 0) ==> THROWN(TI_VALUE_NOT_READY))
 #ifndef CV_CHECK_C20
 __CPROVER_ensures(EXC_OBJ(gh_pt->_exp) != 0 ==> gh_pt->_done == 1)   /* C13-FINDING-after-exception: once the body's exception has surfaced the sequence is over - the generator is finished and says so */
@@ -468,7 +519,7 @@ __CPROVER_ensures(NO_ALLOC)
 /* operator()(): one next_future on the promise; with an argument: installed before the request is made (R5) */
 #ifdef CV_HAS_gen_call
 #ifdef GEN_ARG
-void gen_call(FUT *ret, GEN *this_, cv_i32 *arg)
+void gen_call(FUT *ret, GEN *this_, ARGT *arg)
 #else
 void gen_call(FUT *ret, GEN *this_)
 #endif
@@ -565,7 +616,7 @@ __CPROVER_ensures(NO_ALLOC)
 #endif
 /* *it / it->: the current value of the iterator's generator (or its exception), no step */
 #define IT_DEREF_CONTRACT(f) \
-cv_i32 *f(ITER *this_) \
+VAL *f(ITER *this_) \
 __CPROVER_requires(G_PRE && STUBS_FRESH && this_->_gen == gh_gen) \
 __CPROVER_assigns(STUB_GHOSTS) \
 __CPROVER_ensures(gh_gv_calls == 1 && gh_gv_this == (void *)this_->_gen && gh_nb_calls == 0) \
@@ -579,7 +630,22 @@ IT_DEREF_CONTRACT(it_deref)
 IT_DEREF_CONTRACT(it_arrow)
 #endif
 /* it++: hands out the CURRENT value (read before the step), then exactly one step */
-#ifdef CV_HAS_it_postinc
+#if defined(CV_HAS_it_postinc) && defined(CV_VAL_MV)
+/* value type c13_mv: the handed-out storage holds the CURRENT value (constructed from the generator's item before the step).  The library
+ * constructs it by MOVE (`storage z{std::move(_gen->value())}`): the body's own object is emptied by `it++` - admitted here (the item is
+ * consumed by the step that follows at once and the consumer cannot read it through the generator any more), recorded as an observation
+ * in META: a body that yields an lvalue it keeps using (`s += c; co_yield s;`) finds it emptied after a postfix increment. */
+void it_postinc(ISTORE *ret, ITER *this_, cv_i32 dummy)
+__CPROVER_requires(G_PRE && STUBS_FRESH && __CPROVER_is_fresh(ret, sizeof(*ret)) && this_->_gen == gh_gen && gh_nb_result <= 1 && !gh_gv_throws && !gh_nb_throws)
+__CPROVER_requires(gh_gv_result == gh_val && VAL_IS(gh_val, gh_val_pay))
+__CPROVER_assigns(__CPROVER_object_whole(ret), __CPROVER_object_whole(gh_val), this_->_next, STUB_GHOSTS)
+__CPROVER_ensures(cv_exc_pending == 0 && gh_gv_calls == 1 && gh_gv_this == (void *)this_->_gen && gh_nb_calls == 1 && gh_nb_owner == (void *)this_->_gen && gh_nb_after_value == 1)
+__CPROVER_ensures(VAL_IS(&ret->_v, gh_val_pay) && this_->_next == gh_nb_result && NO_ALLOC)
+#ifdef C13_POSTINC_STRICT
+__CPROVER_ensures(VAL_IS(gh_val, gh_val_pay))   /* C13-FINDING-postinc-moves (opt-in, C13_POSTINC_STRICT=1): the access style must not change what the body yields - the body's object is left intact (fails on the unchanged tree: replay/c13_postinc_moves.cpp, repair specs/C13/fix_postinc_copy.diff) */
+#endif
+;
+#elif defined(CV_HAS_it_postinc)
 cv_i32 gh_cur_value;
 cv_i32 it_postinc(ITER *this_, cv_i32 dummy)
 __CPROVER_requires(G_PRE && STUBS_FRESH && this_->_gen == gh_gen && gh_nb_result <= 1 && !gh_gv_throws && !gh_nb_throws)
@@ -587,5 +653,27 @@ __CPROVER_requires(gh_gv_result != 0 && *gh_gv_result == gh_cur_value)
 __CPROVER_assigns(this_->_next, STUB_GHOSTS)
 __CPROVER_ensures(cv_exc_pending == 0 && gh_gv_calls == 1 && gh_gv_this == (void *)this_->_gen && gh_nb_calls == 1 && gh_nb_owner == (void *)this_->_gen && gh_nb_after_value == 1)
 __CPROVER_ensures(__CPROVER_return_value == gh_cur_value && this_->_next == gh_nb_result && NO_ALLOC)
+;
+#endif
+
+/* ------------------------------------------------------------------------------------------------------- the call-future route, value side */
+/* future<VAL>::set(VAL &): what promise<VAL>::operator()(VAL &) does with the object unblock_future hands it - the future's value is
+ * constructed from it by COPY: the future holds the yielded value, the source (the body's object) is left intact. */
+#ifdef CV_HAS_fut_set_val
+void fut_set_val(FUT *this_, VAL *v)
+__CPROVER_requires(G_PRE && __CPROVER_is_fresh(this_, sizeof(*this_)) && __CPROVER_is_fresh(v, sizeof(*v)) && VAL_IS(v, gh_val_pay))
+__CPROVER_assigns(__CPROVER_object_whole(this_))
+__CPROVER_ensures(cv_exc_pending == 0 && VAL_IS((VAL *)&this_->f1, gh_val_pay) && this_->base_future_common._state == 1)         /* State::value */
+__CPROVER_ensures(VAL_IS(v, gh_val_pay))
+__CPROVER_ensures(NO_ALLOC)
+;
+#endif
+/* get_id(): the identity of the generator's coroutine = the address of its frame (what coroutine_handle::address() gives for the frame the
+ * promise lives in); nothing is touched.  (generator_aggregator does not use ids; the scheduler's generators do.) */
+#ifdef CV_HAS_gen_get_id
+cv_i8 *gen_get_id(GEN *this_)
+__CPROVER_requires(G_PRE && this_ == gh_gen && GEN_P(this_) == gh_pt)
+__CPROVER_assigns()
+__CPROVER_ensures(cv_exc_pending == 0 && __CPROVER_return_value == FRAME_OF(gh_pt) && NO_ALLOC)
 ;
 #endif
